@@ -447,6 +447,48 @@ var subC11Point = core.NewSub("C11/point", func(w *core.Worker, c aliasCase) *co
 	return nil
 })
 
+type largeAliasCase struct {
+	Op     string `json:"op"`
+	N      int    `json:"n"`
+	RecvAt int    `json:"recv_at"`
+}
+
+var subC11Large = core.NewSub("C11/point-many-terms", func(w *core.Worker, c largeAliasCase) *core.Fail {
+	build := func() ([]*edwards25519.Scalar, []*edwards25519.Point) {
+		var sc []*edwards25519.Scalar
+		var ps []*edwards25519.Point
+		al := c11PointAlphabetOnce()
+		sl := c11ScalarAlphabetOnce()
+		for i := 0; i < c.N; i++ {
+			s := sl[(i*5+1)%len(sl)]
+			p := al[(i*3+1)%len(al)]
+			sc = append(sc, &s)
+			ps = append(ps, &p)
+		}
+		return sc, ps
+	}
+	run := func(recv *edwards25519.Point, sc []*edwards25519.Scalar, ps []*edwards25519.Point) []byte {
+		if c.Op == "MultiScalarMult" {
+			return recv.MultiScalarMult(sc, ps).Bytes()
+		}
+		return recv.VarTimeMultiScalarMult(sc, ps).Bytes()
+	}
+	sa, pa := build()
+	aliased := run(pa[c.RecvAt], sa, pa)
+	sd, pd := build()
+	distinct := run(new(edwards25519.Point), sd, pd)
+	if !bytes.Equal(aliased, distinct) {
+		return core.Failf("Point.%s with %d terms: receiver aliased to the point of term %d gives %x, distinct storage gives %x", c.Op, c.N, c.RecvAt, aliased, distinct)
+	}
+	for i := range pa {
+		if i != c.RecvAt && alpha.PointRaw(pa[i]) != alpha.PointRaw(pd[i]) {
+			return core.Failf("Point.%s with %d terms modified point argument %d", c.Op, c.N, i)
+		}
+	}
+	w.Distinct("nontrivial:alias-results", append([]byte(c.Op), aliased...))
+	return nil
+})
+
 func tuples(ncell, alphabet int, limit int) [][]int {
 	total := 1
 	for i := 0; i < ncell; i++ {
@@ -562,6 +604,19 @@ func runC11(ctx *core.Ctx) {
 		}
 	}
 	subC11Point.RunList(ctx, pc)
+	// many terms: the receiver aliased to the first, a middle, the ninth and the last term
+	var lc []largeAliasCase
+	for _, op := range []string{"MultiScalarMult", "VarTimeMultiScalarMult"} {
+		for _, n := range []int{8, 9, 10, 16, 17, 33} {
+			for _, at := range []int{0, n / 2, 8, n - 1} {
+				if at < n {
+					lc = append(lc, largeAliasCase{op, n, at})
+				}
+			}
+		}
+	}
+	subC11Large.RunList(ctx, lc)
+	programs += len(lc)
 	ctx.AddStates(int64(programs))
 	ctx.AddTransitions(int64(len(ec) + len(sc) + len(pc)))
 	ctx.AddTraces(int64(len(ec) + len(sc) + len(pc)))
